@@ -270,6 +270,11 @@ package jsonschema
 //@   atline[C01,C02,C07] "nContains := 0" items07c uses stacklen,anns,add7: st.rs.draft == 0 && !isnil(schema.ItemsArray) && schema.AdditionalItems != nil ==> new(anns) && isold(schema) && isold(schema.ItemsArray) && anns.allItems && (forall j int {rvindex(instance, j)} :: len(schema.ItemsArray) <= j && j < rvlen(instance) ==> vok(st, len(stk0) + 1, rvindex(instance, j), schema.AdditionalItems))
 //@   atline[C01,C02,C07] "nContains := 0" items07d uses stacklen,anns,items7: st.rs.draft == 0 && isnil(schema.ItemsArray) && schema.Items != nil ==> new(anns) && anns.allItems && (forall j int {rvindex(instance, j)} :: 0 <= j && j < rvlen(instance) ==> vok(st, len(stk0) + 1, rvindex(instance, j), schema.Items))
 //@   atline[C07] "validation-01#section-6.4" contains uses stacklen,anns: schema.Contains != nil ==> isold(schema) && new(anns) && newOrNil(anns.evaluatedIndexes) && (forall j int {rvindex(instance, j)} :: 0 <= j && j < rvlen(instance) && vok(st, len(stk0) + 1, rvindex(instance, j), schema.Contains) ==> anns.evaluatedIndexes != nil && has(anns.evaluatedIndexes, j) && anns.evaluatedIndexes[j])
+//@   atline[C01] "if schema.AnyOf != nil {" allofok uses stacklen,allinv,alldone: isold(schema) && isold(schema.AllOf) && (forall j int {schema.AllOf[j]} :: 0 <= j && j < len(schema.AllOf) ==> vok(st, len(stk0) + 1, instance, schema.AllOf[j]))
+//@   atline[C01] "if schema.OneOf != nil {" anyofok uses stacklen,anyinv,anydone: isold(schema) && isold(schema.AnyOf) && (!isnil(schema.AnyOf) ==> (exists j int :: 0 <= j && j < len(schema.AnyOf) && vok(st, len(stk0) + 1, instance, schema.AnyOf[j])))
+//@   atline[C01] "if schema.Not != nil {" oneofok uses stacklen,oneinv,onedone: isold(schema) && isold(schema.OneOf) && (!isnil(schema.OneOf) ==> (exists j int :: 0 <= j && j < len(schema.OneOf) && vok(st, len(stk0) + 1, instance, schema.OneOf[j]) && (forall i int {schema.OneOf[i]} :: 0 <= i && i < len(schema.OneOf) && i != j ==> !vok(st, len(stk0) + 1, instance, schema.OneOf[i]))))
+//@   atline[C01] "if schema.If != nil {" notok uses stacklen: isold(schema) && (schema.Not != nil ==> !vok(st, len(stk0) + 1, instance, schema.Not))
+//@   atline[C01] "// arrays" ifok uses stacklen: isold(schema) && (schema.If != nil ==> (vok(st, len(stk0) + 1, instance, schema.If) ==> schema.Then == nil || vok(st, len(stk0) + 1, instance, schema.Then)) && (!vok(st, len(stk0) + 1, instance, schema.If) ==> schema.Else == nil || vok(st, len(stk0) + 1, instance, schema.Else)))
 //@   atline[C01] "// objects" cp5 uses samejv,shaped,p_items: okItems(schema, instance)
 //@   atline[C01,C07] "if len(schema.PatternProperties) > 0 {" propsok uses stacklen,propsinv: isold(schema) && isold(schema.Properties) && new(evalProps) && (forall k string {has(schema.Properties, k)} :: has(schema.Properties, k) && rvhas(instance, k) ==> vok(st, len(stk0) + 1, rvget(instance, k), schema.Properties[k]) && has(evalProps, k) && evalProps[k])
 //@   atline[C01,C07] "anns.noteProperties(evalProps)" addok uses stacklen,fal,addp: schema.AdditionalProperties != nil ==> new(evalProps) && (forall k string {rvhas(instance, k)} :: rvhas(instance, k) ==> has(evalProps, k) && evalProps[k])
@@ -287,6 +292,10 @@ package jsonschema
 //@   reject[C01] "maxItems:" isJArr(jv(instance)) && schema.MaxItems != nil && jalen(jv(instance)) > *schema.MaxItems
 //@   reject[C01] "minProperties:" isJObj(jv(instance)) && schema.MinProperties != nil && jocard(jv(instance)) < *schema.MinProperties
 //@   reject[C01] "maxProperties:" isJObj(jv(instance)) && schema.MaxProperties != nil && jocard(jv(instance)) > *schema.MaxProperties
+//@   reject[C01] "anyOf:" isold(schema) && isold(schema.AnyOf) && (forall j int {schema.AnyOf[j]} :: 0 <= j && j < len(schema.AnyOf) ==> !vok(st, len(stk0) + 1, instance, schema.AnyOf[j]))
+//@   reject[C01] "oneOf: validated against both" isold(schema) && isold(schema.OneOf) && (exists j int, i int :: 0 <= j && j < i && i < len(schema.OneOf) && vok(st, len(stk0) + 1, instance, schema.OneOf[j]) && vok(st, len(stk0) + 1, instance, schema.OneOf[i]))
+//@   reject[C01] "oneOf: did not" isold(schema) && isold(schema.OneOf) && (forall j int {schema.OneOf[j]} :: 0 <= j && j < len(schema.OneOf) ==> !vok(st, len(stk0) + 1, instance, schema.OneOf[j]))
+//@   reject[C01] "not:" schema.Not != nil && vok(st, len(stk0) + 1, instance, schema.Not)
 //@   reject[C12] "enum:" isold(schema) && isold(schema.Enum) && (forall j int {schema.Enum[j]} :: 0 <= j && j < len(schema.Enum) ==> !eqv(rvof(schema.Enum[j]), instance))
 //@   reject[C12] "const:" schema.Const != nil && !eqv(rvof(*schema.Const), instance)
 //@   reject[C12] "uniqueItems:" exists i int, j int :: 0 <= j && j < i && i < rvlen(instance) && eqv(rvindex(instance, i), rvindex(instance, j))
@@ -349,10 +358,20 @@ package jsonschema
 //@   loop "range instance.Len()"
 //@     invariant[C07] cont uses stacklen,anns: isold(schema) && new(anns) && newOrNil(anns.evaluatedIndexes) && (forall j int {rvindex(instance, j)} :: 0 <= j && j < $i && vok(st, len(stk0) + 1, rvindex(instance, j), schema.Contains) ==> anns.evaluatedIndexes != nil && has(anns.evaluatedIndexes, j) && anns.evaluatedIndexes[j])
 //@     exit[C07] contdone uses stacklen,anns,cont: isold(schema) && new(anns) && newOrNil(anns.evaluatedIndexes) && (forall j int {rvindex(instance, j)} :: 0 <= j && j < rvlen(instance) && vok(st, len(stk0) + 1, rvindex(instance, j), schema.Contains) ==> anns.evaluatedIndexes != nil && has(anns.evaluatedIndexes, j) && anns.evaluatedIndexes[j])
+//@   loop "range schema.AllOf"
+//@     invariant[C01] allinv uses stacklen: isold(schema) && isold(schema.AllOf) && (forall j int {schema.AllOf[j]} :: 0 <= j && j <= $idx ==> vok(st, len(stk0) + 1, instance, schema.AllOf[j]))
+//@     exit[C01] alldone uses stacklen,allinv: isold(schema) && isold(schema.AllOf) && ($idx >= len(schema.AllOf) ==> (forall j int {schema.AllOf[j]} :: 0 <= j && j < len(schema.AllOf) ==> vok(st, len(stk0) + 1, instance, schema.AllOf[j])))
 //@   loop "range schema.AnyOf"
 //@     exit[C01,C07] visitall: $idx >= len(schema.AnyOf)
+//@     invariant[C01] anyinv uses stacklen: isold(schema) && isold(schema.AnyOf) && newOrNil(errs) && $idx < len(schema.AnyOf) && len(errs) <= $idx + 1 && (len(errs) == $idx + 1 || (exists j int :: 0 <= j && j <= $idx && vok(st, len(stk0) + 1, instance, schema.AnyOf[j])))
+//@     invariant[C01] anyrej uses stacklen,anyinv: isold(schema) && isold(schema.AnyOf) && newOrNil(errs) && (len(errs) == $idx + 1 ==> (forall j int {schema.AnyOf[j]} :: 0 <= j && j <= $idx ==> !vok(st, len(stk0) + 1, instance, schema.AnyOf[j])))
+//@     exit[C01] anydone uses stacklen,anyinv: isold(schema) && isold(schema.AnyOf) && newOrNil(errs) && (len(errs) == len(schema.AnyOf) || (exists j int :: 0 <= j && j < len(schema.AnyOf) && vok(st, len(stk0) + 1, instance, schema.AnyOf[j])))
+//@     exit[C01] anyrejdone uses stacklen,anyrej,anyinv: isold(schema) && isold(schema.AnyOf) && newOrNil(errs) && (len(errs) == len(schema.AnyOf) ==> (forall j int {schema.AnyOf[j]} :: 0 <= j && j < len(schema.AnyOf) ==> !vok(st, len(stk0) + 1, instance, schema.AnyOf[j])))
 //@   loop "range schema.OneOf"
 //@     exit[C01,C07] visitall: $idx >= len(schema.OneOf) || okSchema != nil
+//@     invariant[C01] oneinv uses stacklen: isold(schema) && isold(schema.OneOf) && $idx < len(schema.OneOf) && (okSchema == nil ==> (forall j int {schema.OneOf[j]} :: 0 <= j && j <= $idx ==> !vok(st, len(stk0) + 1, instance, schema.OneOf[j]))) && (okSchema != nil ==> (exists j int :: 0 <= j && j <= $idx && vok(st, len(stk0) + 1, instance, schema.OneOf[j]) && (forall i int {schema.OneOf[i]} :: 0 <= i && i <= $idx && i != j ==> !vok(st, len(stk0) + 1, instance, schema.OneOf[i]))))
+//@     exit[C01] onedone uses stacklen,oneinv: isold(schema) && isold(schema.OneOf) && ($idx >= len(schema.OneOf) ==> (okSchema == nil ==> (forall j int {schema.OneOf[j]} :: 0 <= j && j < len(schema.OneOf) ==> !vok(st, len(stk0) + 1, instance, schema.OneOf[j]))) && (okSchema != nil ==> (exists j int :: 0 <= j && j < len(schema.OneOf) && vok(st, len(stk0) + 1, instance, schema.OneOf[j]) && (forall i int {schema.OneOf[i]} :: 0 <= i && i < len(schema.OneOf) && i != j ==> !vok(st, len(stk0) + 1, instance, schema.OneOf[i])))))
+//@     exit[C01] oneboth uses stacklen,oneinv: isold(schema) && isold(schema.OneOf) && ($idx < len(schema.OneOf) ==> (exists j int, i int :: 0 <= j && j < i && i < len(schema.OneOf) && vok(st, len(stk0) + 1, instance, schema.OneOf[j]) && vok(st, len(stk0) + 1, instance, schema.OneOf[i])))
 //@   loop "range st.stack"
 //@     invariant[C06] none: dynamicSchema == nil && (forall k int {st.stack[k]} :: 0 <= k && k <= $idx ==> !dynAnchorAt(rs, st.stack[k], schemaInfo.dynamicRefAnchor))
 //@     exit[C06] nomatch: $idx >= len(st.stack) ==> dynamicSchema == nil && (forall k int {st.stack[k]} :: 0 <= k && k < len(st.stack) ==> !dynAnchorAt(rs, st.stack[k], schemaInfo.dynamicRefAnchor))
